@@ -673,6 +673,49 @@ class LcGen(GovGen):
             self.observe(t)
             self.idx[(f, t)] = i + 1
 
+    def scripted_cascade(self):
+        """an appchain-wide cascade after one of the chain's services took a status of its own: a service of a chain with
+        several services is logged out (or frozen), then the chain goes through a round trip that rewrites all its services
+        (freeze + activate, or a rejected logout); afterwards every service of the chain is read back and probed as source
+        and as destination, on the running node and again after a restart"""
+        r = self.r
+        c = r.choice(["c1", "c2"])
+        mine = [x for x in SVC if x.startswith(c + ":")]
+        svc = r.choice(mine)
+        ev = r.choice(["LogoutService", "LogoutService", "FreezeService"])
+        who = f"ca{c[1]}" if ev == "LogoutService" else r.choice(ADMINS)
+        self.submit(who, f"service {ev} s:{svc} s:reason", "service-" + ev[:-7].lower(), "service", svc)
+        ref, kind, mod, obj = self.props[-1]
+        self.vote_all(ref, mod, obj, "approve")
+        trip = r.choice([("FreezeAppchain", "approve", "ActivateAppchain", "approve"),
+                         ("FreezeAppchain", "approve", "ActivateAppchain", "approve"),
+                         ("LogoutAppchain", "reject", None, None),
+                         ("FreezeAppchain", "approve", "ActivateAppchain", "reject")])
+        for evc, ballot in ((trip[0], trip[1]), (trip[2], trip[3])):
+            if evc is None:
+                continue
+            whoc = f"ca{c[1]}" if evc == "LogoutAppchain" else r.choice(ADMINS)
+            self.submit(whoc, f"appchain {evc} s:{c} s:reason", "appchain-" + evc[:-8].lower(), "appchain", c)
+            ref, kind, mod, obj = self.props[-1]
+            self.vote_all(ref, mod, obj, ballot)
+            for x in mine:
+                self.observe(x)
+        self.tags.add(f"cascade:{ev}+{trip[0]}")
+        other = "c4:s1"
+        for rnd in range(2):
+            for x in mine:
+                for f, t in ((x, other), (other, x)):
+                    i = self.idx.get((f, t), 1)
+                    self.observe(f)
+                    self.observe(t)
+                    self.ops.append(f"block ibtp ca{f[1]} {f} {t} {i} req 0 - ok")
+                    self.observe(f)
+                    self.observe(t)
+                    self.idx[(f, t)] = i + 1
+            if rnd == 0:
+                self.ops.append("restart")
+                self.tags.add("restart")
+
     def late_vote(self):
         if not self.pending:
             return self.govern()
@@ -698,6 +741,8 @@ def gen_c16(rng, n, tier):
             g.scripted_overlap()
         elif k0 < 0.45:
             g.scripted_sequence()
+        elif k0 < 0.6:
+            g.scripted_cascade()
         for _ in range(r.randint(5, 14)):
             k = r.random()
             if k < 0.5:
